@@ -193,10 +193,12 @@ class PopenExecutor(concurrent.futures.Executor):
 
         Raises ShutdownError if the executor has been shutdown."""
 
-        if self._shutdown.is_set():
-            raise ShutdownError()
-
         with self._lock:
+            # checked under the lock: shutdown() sets the flag before it takes the lock to
+            # cancel the registered futures, so a future can no longer slip in after that
+            if self._shutdown.is_set():
+                raise ShutdownError()
+
             self._futures.append(future)
             future.start()
             return future
